@@ -53,6 +53,14 @@ theorem atomic_within_threshold (thr : Nat) (m : SMapB) (ops : List BOp) (h : si
   | zero => left; rfl
   | succ j => right; simp [List.take]
 
+/-- K7 as a theorem about the model: beyond the threshold the statement of `atomic_within_threshold` is false - a
+    batch of two records under a threshold that holds one of them (103: the estimate adds 100 per operation) is two physical writes, and the image after
+    the first is neither the old nor the new one. (The same history on the library: `corpus/C05/K7-commit-cut.hist`.) -/
+theorem beyond_threshold_not_atomic :
+    let ops : List BOp := [.set [1] [10], .set [2] [20]]
+    let cut := ((flushSplit 103 ops).take 1).foldl applyOps ([] : SMapB)
+    (flushSplit 103 ops).length = 2 ∧ cut ≠ [] ∧ cut ≠ applyOps [] ops := by decide
+
 theorem default_threshold : Facts.defaultFlushThreshold = 100000 := Facts.numbering_ok.2.2
 
 end Iavl.Props.C05
